@@ -51,6 +51,7 @@ var verifTemplates = []verifTemplate{
 	{"range-parameter-searched-twice", "fn has(r: range, n: int) -> bool {\n  for i in r {\n    if i == n { return true; }\n  }\n  return false;\n}\nfn main() {\n  let r = 0..4;\n  println(has(r, 3), has(r, 1), has(r, A));\n}\n"},
 	{"closure-argument-names", "fn main() {\n  let f = fn(a: int, b: int) -> int { a - b };\n  let a = A;\n  let b = B;\n  println(f(b, a), f(a, b), f(b + 1, a + b));\n}\n"},
 	{"catch-identifier-scope", "fn main() {\n  let e = A;\n  try {\n    throw(\"x\");\n  } catch e {\n    println(e.message);\n  }\n  println(e);\n  let v = try { if P { throw(\"y\"); } 1 } catch e { 2 };\n  println(v, e + 1);\n}\n"},
+	{"many-declarations-of-one-name", "fn main() {\n  let x1 = A;\n  { let x = 0; println(x); }\n  { let x = 1; println(x); }\n  { let x = 2; println(x); }\n  { let x = 3; println(x); }\n  { let x = 4; println(x); }\n  { let x = 5; println(x); }\n  { let x = 6; println(x); }\n  { let x = 7; println(x); }\n  { let x = 8; println(x); }\n  { let x = 9; println(x); }\n  let x = B;\n  println(x1, x);\n  x = C;\n  println(x1, x);\n  let x10 = 5;\n  println(x1, x, x10);\n}\n"},
 	{"listloop", "fn main() {\n  let l = [A, B, C];\n  let sum = 0;\n  for x in l { sum += x; }\n  println(sum, l);\n}\n"},
 }
 
